@@ -29,6 +29,26 @@ def E(op, t='', v=0):
     return dict(op=op, t=t, v=v)
 
 
+def T():
+    return I('try')
+
+
+def X():
+    return I('except')
+
+
+def F():
+    return I('finally')
+
+
+def EX():
+    return I('endx')
+
+
+def EF():
+    return I('endf')
+
+
 # ---- program sets for the exhaustive histories (each exercises a part of the vocabulary) ----
 PROGSETS = {
     'flow': dict(r1=P([I('yn', v=8), I('yv', v=3), I('yn', v=2)]),
@@ -61,11 +81,26 @@ PROGSETS = {
                   r2=P([I('yn', v=2), I('yv', v=3), I('yar', v=4)])),
     'embedfail': dict(r1=P([I('embed', 'r2'), I('yn', v=8), I('embed', 'r1'), I('yn', v=1)]),
                       r2=P([I('yn', v=2), I('wait', 'c1'), I('raise')])),
+    # try / except BaseException / finally around yields: what clean-up code does when the routine is ended there
+    'trycatch': dict(r1=P([T(), I('yn', v=8), X(), EX(), T(), I('yn', v=4), I('raise'), X(), I('yv', v=1), EX(), I('yn', v=2)]),
+                     r2=P([T(), I('yn', v=2), F(), I('yv', v=3), EF(), I('yn', v=1)], inv=0)),
+    'tryfin': dict(r1=P([T(), I('yn', v=8), I('yn', v=4), F(), I('stop', 'r2', c=1), I('stop', 'r1', c=1), EF(), I('yn', v=1)]),
+                   r2=P([T(), I('yn', v=2), F(), I('stop', 'r1', c=1), I('stop', 'r2', c=1), I('raise'), EF()], inv=0)),
+    'tryself': dict(r1=P([T(), I('yn', v=8), F(), I('reset', 'r1'), I('pause', 'r2', c=1), I('raise'), EF()]),
+                    r2=P([T(), T(), I('yn', v=2), I('ret'), F(), I('pause', 'r2', c=1), I('yv', v=4), EF(), X(),
+                          I('next', 'r1', c=1), EX(), I('yn', v=1)])),
+    'trypend': dict(r1=P([T(), T(), I('yn', v=8), I('raise'), F(), I('yv', v=1), EF(), X(), I('yn', v=2), EX(),
+                          T(), I('yar', v=4), F(), I('yv', v=5), EF()]),
+                    r2=P([T(), I('next', 'r1'), I('raise'), X(), I('reset', 'r1'), EX(), T(), I('alw', v=3), F(),
+                          I('pause', 'r1'), EF()], plain=1, inv=0)),
+    'trycond': dict(r1=P([T(), I('wait', 'c1'), I('yn', v=8), F(), I('signal', 'c1'), I('embed', 'r2'), EF()]),
+                    r2=P([T(), I('embed', 'r1'), X(), I('yn', v=2), EX(), I('yv', v=1)])),
     'three': dict(r1=P([I('next', 'r2', c=1), I('yn', v=8), I('next', 'r3', c=1)]),
                   r2=P([I('next', 'r3'), I('yn', v=2), I('next', 'r1', c=1)]),
                   r3=P([I('yn', v=1), I('stop', 'r1', c=1), I('raise')])),
 }
-QUICK_SETS = ('flow', 'fail', 'nest', 'nestops', 'selfops', 'reentry', 'cond', 'flowvar', 'plain', 'embed', 'embedfail')
+QUICK_SETS = ('flow', 'fail', 'nest', 'nestops', 'selfops', 'reentry', 'cond', 'flowvar', 'plain', 'embed', 'embedfail',
+              'trycatch', 'tryfin', 'tryself', 'trypend', 'trycond')
 
 
 def alphabet(prog):
@@ -99,35 +134,51 @@ BODY_OPS = ('yn', 'yn', 'yn', 'yv', 'ret', 'raise', 'yar', 'alw', 'next', 'next'
             'play', 'wait', 'signal', 'unhang', 'settest', 'fget', 'fset')
 
 
+def random_instr(rnd, names, me, plain, in_handler):
+    op = rnd.choice(BODY_OPS)
+    if plain and op in ('yn', 'yv', 'wait', 'fget', 'embed'):
+        op = 'next'
+    if op in ('yn', 'yar', 'alw'):
+        return I(op, v=rnd.choice((0, 1, 2, 4, 8)))
+    if op == 'yv':
+        return I(op, v=rnd.randint(1, 9))
+    if op in ('ret', 'raise'):
+        return I(op)
+    if op in ('next', 'embed'):
+        # clean-up code that restarts its own routine would recurse (stop -> clean-up -> next -> stop ...)
+        t = rnd.choice([n for n in names if n != me] if in_handler else names)
+        return I(op, t, c=rnd.choice((0, 1, 1)) if op == 'next' else 0)
+    if op in ('stop', 'pause', 'resume', 'reset', 'play'):
+        return I(op, rnd.choice(names), c=rnd.choice((0, 1, 1)))
+    if op in ('wait', 'signal', 'unhang'):
+        return I(op, rnd.choice(('c1', 'c1', 'f1')) if op != 'wait' else 'c1')
+    if op == 'settest':
+        return I(op, 'c1', rnd.choice((0, 1)))
+    if op == 'fget':
+        return I(op, 'f1')
+    return I('fset', 'f1', rnd.randint(1, 9), c=rnd.choice((0, 1)))
+
+
+def random_block(rnd, names, me, plain, n, depth, in_handler, ptry):
+    code = []
+    while len(code) < n:
+        if depth < 2 and rnd.random() < ptry:
+            kind = rnd.choice((('except', 'endx'), ('finally', 'endf')))
+            code += ([I('try')] + random_block(rnd, names, me, plain, rnd.randint(1, 3), depth + 1, in_handler, ptry)
+                     + [I(kind[0])] + random_block(rnd, names, me, plain, rnd.randint(0, 3), depth + 1, True, ptry)
+                     + [I(kind[1])])
+        else:
+            code.append(random_instr(rnd, names, me, plain, in_handler))
+    return code
+
+
 def random_prog(rnd):
     names = ['r1', 'r2', 'r3'][:rnd.choice((2, 2, 3))]
+    ptry = rnd.choice((0.0, 0.0, 0.25, 0.4))
     prog = {}
     for r in names:
         plain = 1 if rnd.random() < 0.15 else 0
-        code = []
-        for _ in range(rnd.randint(1, 6)):
-            op = rnd.choice(BODY_OPS)
-            if plain and op in ('yn', 'yv', 'wait', 'fget', 'embed'):
-                op = 'next'
-            if op in ('yn', 'yar', 'alw'):
-                code.append(I(op, v=rnd.choice((0, 1, 2, 4, 8))))
-            elif op == 'yv':
-                code.append(I(op, v=rnd.randint(1, 9)))
-            elif op in ('ret', 'raise'):
-                code.append(I(op))
-            elif op in ('next', 'stop', 'pause', 'resume', 'reset', 'play'):
-                code.append(I(op, rnd.choice(names), c=rnd.choice((0, 1, 1))))
-            elif op == 'embed':
-                code.append(I(op, rnd.choice(names)))
-            elif op in ('wait', 'signal', 'unhang'):
-                code.append(I(op, rnd.choice(('c1', 'c1', 'f1')) if op != 'wait' else 'c1'))
-            elif op == 'settest':
-                code.append(I(op, 'c1', rnd.choice((0, 1))))
-            elif op == 'fget':
-                code.append(I(op, 'f1'))
-            elif op == 'fset':
-                code.append(I(op, 'f1', rnd.randint(1, 9), c=rnd.choice((0, 1))))
-        prog[r] = P(code, plain=plain, inv=rnd.choice((0, 1)))
+        prog[r] = P(random_block(rnd, names, r, plain, rnd.randint(1, 6), 0, False, ptry), plain=plain, inv=rnd.choice((0, 1)))
     return prog
 
 
@@ -191,6 +242,9 @@ def judge(ctx, cases, traces):
         c = cases[t['id']]
         if why.startswith('machinery:'):
             raise MachineryError('trace %d event %d: %s' % (t['id'], at, why))
+        if why.startswith('skip:'):         # clean-up code that keeps restarting itself: beyond what the spec follows
+            ctx.cov['skipped'] = ctx.cov.get('skipped', 0) + 1
+            continue
         rp = dict(kind='case', case=dict(prog=c['prog'], conds=c['conds'], flows=c['flows'], hist=c['hist'][:at]),
                   rejected_at=at, why=why, observed=t['ev'][max(0, at - 2):at])
         if t['id'] in v2 and v2[t['id']] != v:
@@ -220,18 +274,22 @@ def sim_cases(ctx, sel, num, depth, seed):
     return out
 
 
-def witness_run(ctx):
+NWITNESS = 27
+
+
+def witness_run(ctx, cfg, sub, must):
+    """vacuity guard: TLC registers record that the situations in Routine!Witnesses were reached"""
     from harness import tlc
-    r = model_check_in(ctx, 'w', 'Routine', 'Routine_witness.cfg', timeout=900, workers=1,
-                       label='vacuity witnesses, one program, depth 4')
+    r = model_check_in(ctx, sub, 'Routine', cfg, timeout=900, workers=1, label='vacuity witnesses (%s), depth 4' % cfg)
     flags = {}
     for line in r.output.splitlines():
         if line.startswith('<<"WITNESS"'):
             v = tlc.parse_value(line.strip())
             flags[v[1]] = v[2]
-    if len(flags) != 22 or not all(flags.values()):
-        raise MachineryError('vacuity: witnesses not reached: %s' % sorted(k for k in range(1, 23) if not flags.get(k)))
-    ctx.cov['witnesses_reached'] = len(flags)
+    missing = sorted(k for k in must if not flags.get(k))
+    if len(flags) != NWITNESS or missing:
+        raise MachineryError('vacuity: witnesses not reached in %s: %s' % (cfg, missing))
+    ctx.cov['witnesses_reached'] = ctx.cov.get('witnesses_reached', 0) + len(must)
     return r
 
 
@@ -246,15 +304,16 @@ def run(ctx):
     t0 = time.time()
     ph = ctx.cov['phase_s'] = {}
     # 1. design: the interpreter satisfies the L1 predicates for every body of bounded length
-    with ThreadPoolExecutor(4) as ex:
+    with ThreadPoolExecutor(7) as ex:
         # vacuity guard: TLC's -coverage cannot be used (its cost model unfolds the recursive interpreter and runs
         # out of memory), so a one-worker run records in TLC registers that every action and every situation an L1
         # predicate talks about (Witnesses in Routine.tla) is reached, and prints them in a POSTCONDITION
-        fs = [ex.submit(witness_run, ctx)]
-        for sel in ((1, 2, 3, 4, 6) if thorough else (1, 2, 3, 4)):
+        fs = [ex.submit(witness_run, ctx, 'Routine_witness.cfg', 'w', range(1, 23)),
+              ex.submit(witness_run, ctx, 'Routine_witness2.cfg', 'w2', range(23, NWITNESS + 1))]
+        for sel in ((1, 2, 3, 4, 6, 7) if thorough else (1, 2, 3, 4, 7)):
             fs.append(ex.submit(model_check_in, ctx, 'p%d' % sel, 'Routine',
                                 'Routine_p%d%s.cfg' % (sel, '_thorough' if thorough else ''),
-                                timeout=1800, workers=4, label='bodies p%d' % sel))
+                                timeout=1800, workers=4 if thorough else 3, label='bodies p%d' % sel))
         for f in fs:
             ctx.expect_ok(f.result(), 'Routine L1')
 
@@ -262,12 +321,14 @@ def run(ctx):
     # 2. binding: exhaustive short histories, random long ones, simulated spec behaviours
     rnd = random.Random(ctx.seed)
     if thorough:
-        cases = exhaustive_cases(sorted(PROGSETS), 3) + exhaustive_cases(('nestops', 'reentry', 'cond', 'embed'), 4, reduced=True)
+        cases = (exhaustive_cases(sorted(PROGSETS), 3)
+                 + exhaustive_cases(('nestops', 'reentry', 'cond', 'embed', 'tryfin', 'tryself'), 4, reduced=True))
     else:
-        cases = exhaustive_cases(QUICK_SETS, 2) + exhaustive_cases(('reentry', 'cond'), 3)
+        cases = (exhaustive_cases(QUICK_SETS, 2) + exhaustive_cases(('reentry', 'cond'), 3)
+                 + exhaustive_cases(('tryfin', 'trycatch'), 3, reduced=True))
     nrand = 6000 if thorough else 500
     cases += [random_case(rnd, rnd.randint(15, 60), clocky=(i % 3 == 0)) for i in range(nrand)]
-    for sel in ((1, 2, 3, 4, 6) if thorough else (1, 2, 3, 4)):
+    for sel in ((1, 2, 3, 4, 6, 7) if thorough else (1, 2, 3, 4, 7)):
         cases += sim_cases(ctx, sel, 1500 if thorough else 120, 14, ctx.seed + sel)
     ph['generate+simulate'] = round(time.time() - t0, 1)
     traces = run_cases(ctx, cases)
@@ -295,7 +356,7 @@ def run(ctx):
                         'scheduling a task that is already queued replaces its entry (RT TaskQueue semantics); NRT keeps both '
                         'entries - such traces are classified as the known NRT duplicate-scheduling finding when the '
                         'multi-entry semantics explains them completely',
-                        'generator close()/GC effects of dropped iterators are not observed',
+                        'an abandoned generator is finalised at once (CPython reference counting): its clean-up code runs inside stop()/reset()',
                         'exception class of a refused re-entrant next() is not pinned by the property']
 
 
